@@ -3,6 +3,7 @@ package regexp2
 import (
 	"errors"
 	"math"
+	"slices"
 )
 
 // Split splits the given input string using the pattern and returns
@@ -35,19 +36,34 @@ func (re *Regexp) Split(input string, count int) ([]string, error) {
 	var retVal []string
 	var txt []rune
 
+	// a right-to-left pattern finds its matches from the end of the input:
+	// the pieces are collected back to front and reversed at the end
+	rtl := re.RightToLeft()
+
 	m, err := re.FindStringMatch(input)
+	if rtl && m != nil {
+		priorIndex = len(m.text.runes)
+	}
 
 	for ; m != nil && count > 0; m, err = re.FindNextMatch(m) {
 		txt = m.text.runes
 		// if we have an m, we don't have an err
 		// append our match
-		retVal = append(retVal, string(txt[priorIndex:m.RuneIndex]))
+		if rtl {
+			retVal = append(retVal, string(txt[m.RuneIndex+m.RuneLength:priorIndex]))
+		} else {
+			retVal = append(retVal, string(txt[priorIndex:m.RuneIndex]))
+		}
 		// append any capture groups, skipping group 0
 		gs := m.Groups()
 		for i := 1; i < len(gs); i++ {
 			retVal = append(retVal, gs[i].String())
 		}
-		priorIndex = m.RuneIndex + m.RuneLength
+		if rtl {
+			priorIndex = m.RuneIndex
+		} else {
+			priorIndex = m.RuneIndex + m.RuneLength
+		}
 		count--
 	}
 
@@ -61,7 +77,12 @@ func (re *Regexp) Split(input string, count int) ([]string, error) {
 	}
 
 	// append our remainder
-	retVal = append(retVal, string(txt[priorIndex:]))
+	if rtl {
+		retVal = append(retVal, string(txt[:priorIndex]))
+		slices.Reverse(retVal)
+	} else {
+		retVal = append(retVal, string(txt[priorIndex:]))
+	}
 
 	return retVal, nil
 }
